@@ -388,23 +388,24 @@ def t2_whitelist():
         raise Refusal(item, "str2NIRNode not found")
     arg = fn.args.args[0].arg if fn.args.args else None
     body = [s for s in fn.body if not (isinstance(s, ast.Expr) and isinstance(s.value, ast.Constant))]
-    ok = (
-        len(body) == 2
-        and isinstance(body[0], ast.Assert)
-        and isinstance(body[0].test, ast.Compare)
-        and isinstance(body[0].test.left, ast.Name) and body[0].test.left.id == arg
-        and len(body[0].test.ops) == 1 and isinstance(body[0].test.ops[0], ast.In)
-        and isinstance(body[0].test.comparators[0], ast.Name)
-        and body[0].test.comparators[0].id == "__all_ir"
-        and isinstance(body[1], ast.Return)
-        and isinstance(body[1].value, ast.Subscript)
-        and isinstance(body[1].value.value, ast.Call)
-        and isinstance(body[1].value.value.func, ast.Name)
-        and body[1].value.value.func.id == "globals"
-        and isinstance(body[1].value.slice, ast.Name) and body[1].value.slice.id == arg
-    )
+    def is_guarded_lookup(ret):
+        return (isinstance(ret, ast.Return) and isinstance(ret.value, ast.Subscript)
+                and isinstance(ret.value.value, ast.Call) and isinstance(ret.value.value.func, ast.Name)
+                and ret.value.value.func.id == "globals"
+                and isinstance(ret.value.slice, ast.Name) and ret.value.slice.id == arg)
+
+    def membership(test, negated):
+        op = ast.NotIn if negated else ast.In
+        return (isinstance(test, ast.Compare) and isinstance(test.left, ast.Name) and test.left.id == arg
+                and len(test.ops) == 1 and isinstance(test.ops[0], op)
+                and isinstance(test.comparators[0], ast.Name) and test.comparators[0].id == "__all_ir")
+
+    ok = len(body) == 2 and is_guarded_lookup(body[1]) and (
+        (isinstance(body[0], ast.Assert) and membership(body[0].test, False))
+        or (isinstance(body[0], ast.If) and membership(body[0].test, True) and not body[0].orelse
+            and len(body[0].body) == 1 and isinstance(body[0].body[0], ast.Raise)))
     if not ok:
-        raise Refusal(item, "str2NIRNode is no longer `assert type in __all_ir; return globals()[type]`")
+        raise Refusal(item, "str2NIRNode is no longer a whitelist guard (`assert type in __all_ir` / `if type not in __all_ir: raise`) followed by `return globals()[type]`")
     # every whitelisted name must resolve, in the module's globals, to the class of that name
     nir = _import_nir()
     for n in names:
